@@ -70,6 +70,9 @@ PROPS["C07"] = {
 PROPS["C08"] = {
     "level": "proof",
     "technique": "Verus contracts on the extracted lease operations (acquire / renew / complete / fail / scavenge on both backends; the object-store versions with their CAS retry loops: success is justified relative to the version the successful attempt loaded): inductive invariant 'Active leases have pairwise disjoint chunk lists', closures handed to retain/filter lifted and verified, rely on the conditional-PUT contract of the lease file",
+    "frame_scans": [{"file": "src/metadata/s3.rs", "patterns": [".atomic_save_leases("],
+                     "allowed_units": ["s3_acquire_lease", "s3_renew_lease", "s3_complete_lease", "s3_fail_lease", "s3_scavenge_leases"],
+                     "message": "the lease file is written only by the five lease operations under contract"}],
     "verus": ["c08_leases.rs.in"],
     "explanation": "",
     "assumptions": [
@@ -84,6 +87,9 @@ PROPS["C08"] = {
 PROPS["C13"] = {
     "level": "proof",
     "technique": "Verus contracts on the extracted update_shard_metadata (in-memory: whole function; object store: the one-attempt body of the CAS loop over a ghost shard store with the conditional-PUT contract) and on ShardRouter::update_routing",
+    "frame_scans": [{"file": "src/metadata/s3.rs", "patterns": [".atomic_save_shard("],
+                     "allowed_units": ["s3_update_shard_body"],
+                     "message": "shard metadata objects are written only by update_shard_metadata (generation-fenced)"}],
     "verus": ["c13_generation.rs.in"],
     "explanation": "",
     "assumptions": [
@@ -288,6 +294,9 @@ PROPS["C06"] = {
 PROPS["C01"] = {
     "level": "other",
     "technique": "Verus contract on the extracted recovery Ingester::ensure_wal (three nested loops: every decodable entry newer than the mark ends up in the buffer or in registered chunks and is covered by last_wal_seq; a flush issued during recovery never persists a mark that covers an entry not completely in chunks; start-up truncation cuts only what the mark covers; at every exit, also failed ones, the mark is safe); Verus effect-order contracts on the extracted write path (WAL append before buffer append before the acknowledgement; a WAL failure buffers nothing), on flush_batches (upload, registration, announcements, then WAL truncation, then the persisted mark; a failed flush never moves the mark; under quiescence the mark equals the flushed cover) and the WAL reader / header codec units of C05; two probes record the known findings F3 and F4",
+    "frame_scans": [{"file": "src/ingester/mod.rs", "patterns": ["persist_flushed_seq(", ".truncate_before("],
+                     "allowed_units": ["flush_batches", "ensure_wal", "flush_mark_sequential"],
+                     "message": "the flushed mark is persisted and the log is truncated only by flush_batches and by recovery (ensure_wal)"}],
     "verus": ["c01_durability.rs.in", "c06_ingest.rs.in", "c05_wal_reader.rs.in", "c05_wal_fs.rs.in", "c01_recovery.rs.in"],
     "kani": ["c05_header"],
     "explanation": "Sequential crash-point core only: between every two effects of write and flush_batches the ordering obligations hold for all inputs and all failure points of the shimmed callees (each effect either happened or not). The schedule quantifier of C01 is NOT covered beyond one rely on the shared sequence cell, and exactly there the property fails today (known findings F3, F4, demonstrated on the real code under /verif/findings). Recovery (ensure_wal) is under contract over the WAL reader contract of C05; the timer / shutdown flush (run_flush_timer: tokio::select!) is not. OS-level durability of synced bytes is assumed.",
